@@ -127,6 +127,15 @@ func scriptedPrefix(s *Store, c vcfg, keys [][]byte, m *model, which int) {
 	case 6: // overwrite of an unflushed record
 		put(0)
 		put(0)
+	case 7: // a dead file between live ones (needs >= 3 keys)
+		put(0)
+		put(1)
+		put(last)
+		flush()
+		put(last)
+		flush()
+		remove(1)
+		flush()
 	}
 }
 
